@@ -1049,6 +1049,9 @@ class Engine:
     if isinstance(e.op, ast.USub):
       if is_sym(v) and v.sort() == V:
         return self.vec('neg', v)
+      h = self.libspec.get(('neg', type(v).__name__))
+      if h:
+        return h[1](self, v)
       return -v
     if isinstance(e.op, ast.UAdd):
       return v
@@ -1105,6 +1108,11 @@ class Engine:
         return x_._pyvc_compare(type(op).__name__, y_, refl)
     if isinstance(a, SymSet) or isinstance(b, SymSet):
       raise Unsupported('set comparison')
+    if type(a).__name__ == 'SymMat' or type(b).__name__ == 'SymMat':
+      h = self.libspec.get(('compare', 'SymMat', type(op).__name__))
+      if h:
+        return h[1](self, a, b)
+      raise Unsupported('comparison of symbolic matrices')
     if isinstance(a, SymSeq) or isinstance(b, SymSeq):
       h = self.libspec.get(('compare', 'SymSeq', type(op).__name__))
       if h:
@@ -1183,6 +1191,11 @@ class Engine:
         fb = getattr(b, f) if isinstance(b, Struct) else b
         setattr(out, f, self.binop(op, fa, fb))
       return out
+    if type(a).__name__ == 'SymMat' or type(b).__name__ == 'SymMat':      # 2-d mode (vlib/pyvc/matrix.py)
+      h = self.libspec.get(('binop', 'SymMat', t.__name__))
+      if h:
+        return h[1](self, a, b)
+      raise Unsupported('arithmetic on symbolic matrices')
     if isinstance(a, SymSeq) or isinstance(b, SymSeq):
       h = self.libspec.get(('binop', 'SymSeq', t.__name__))
       if h:
